@@ -1298,10 +1298,11 @@ class Model:
 
         # Evaluate common terms
         encodings = self._get_encoding_bools()
-        self.add_extra_terms(encodings, data, env)
-
-        # Need to get encodings again after creating possible extra terms
-        encodings = self._get_encoding_bools()
+        # An extra term may need extra terms itself, e.g. "f:g:h" needs "f:g", which needs "f"
+        while any(len(encoding) > 1 for encoding in encodings.values()):
+            self.add_extra_terms(encodings, data, env)
+            # Need to get encodings again after creating possible extra terms
+            encodings = self._get_encoding_bools()
 
         for term in self.common_terms:
             if term.name in encodings:
